@@ -30,6 +30,16 @@ import (
 // vIsoQuery is the text of the statement the two connections of H15 prepare.
 var vIsoQuery = []byte("q")
 
+// vIsoPreOID != 0: the Parse message pre-specifies one parameter type, this one
+var vIsoPreOID uint32
+
+func vIsoPrespecified() []byte {
+	if vIsoPreOID == 0 {
+		return vU16(0)
+	}
+	return vCat(vU16(1), vU32(vIsoPreOID))
+}
+
 func vConnTraffic(user []byte, name []byte, extended, simple, auth bool) []byte {
 	sync := vMsgBytes('S', nil)
 	in := vStartup(vKV([]byte("user"), user))
@@ -38,7 +48,7 @@ func vConnTraffic(user []byte, name []byte, extended, simple, auth bool) []byte 
 	}
 	if extended {
 		in = vCat(in,
-			vMsgBytes('P', vCat(vCStr(name), vCStr(vIsoQuery), vU16(0))),
+			vMsgBytes('P', vCat(vCStr(name), vCStr(vIsoQuery), vIsoPrespecified())),
 			vMsgBytes('B', vCat(vCStr(name), vCStr(name), vU16(0), vU16(0), vU16(0))),
 			vMsgBytes('D', vCat([]byte{'S'}, vCStr(name))),
 			vMsgBytes('E', vCat(vCStr(name), vU32(0))), sync)
@@ -104,6 +114,12 @@ func VerifH15() {
 	var kept *PreparedStatement
 	if sharedStmt {
 		kept = NewStatement(run, WithColumns(vTextColumns(st[0].cols)))
+		if vParam("PRESPEC", 0) == 1 {
+			// ... with one parameter whose type the handler leaves unspecified (0),
+			// while each connection's Parse pre-specifies a type of its own for it
+			kept = NewStatement(run, WithColumns(vTextColumns(st[0].cols)), WithParameters([]oid.Oid{0}))
+			vReach("connections-prespecify-different-types-for-a-shared-statement")
+		}
 		vReach("one-prepared-statement-for-all-connections")
 	}
 	// PARSEPARAMS=1: the handler asks the library's ParseParameters helper for
@@ -165,8 +181,16 @@ func VerifH15() {
 	}
 	srv, err := NewServer(parse, opts...)
 	vAssert("newserver-ok", err == nil)
+	prespec := vParam("PRESPEC", 0) == 1 && sharedStmt
+	if prespec {
+		vIsoPreOID = 23
+	}
 	c1 := vNewConn(vConnTraffic(u1, name, ext1, sim1, withAuth))
+	if prespec {
+		vIsoPreOID = 25
+	}
 	c2 := vNewConn(vConnTraffic(u2, name, ext2, sim2, withAuth))
+	vIsoPreOID = 0
 	c2.id = 1
 	// an earlier connection that has come and gone before the two are served (a
 	// solver choice): none, a CancelRequest, an SSLRequest that is refused and
